@@ -85,6 +85,11 @@ class C15(Engine):
             base = rng.pick([0, 0x100, 0x200, 0x1000, 0x8000, top - 64, top - 16, top // 2 - 8]) & ~(unit * 2 - 1) & 0xffffffff
             stratum = (index * self.CASES + j) // len(names)
             code = bytearray(rng.bytes(64))
+            if rng.chance(1, 2):
+                # operand bytes at the edges: addresses like 0xff80 / 0x00ff / 0xffff make base+index wrap
+                for i in range(1, 6):
+                    if rng.chance(2, 3):
+                        code[i] = rng.pick([0x00, 0xff, 0xff, 0x80, 0x7f, 0xfe, 0x01, 0xf0])
             first = stratum & 0xff
             if unit == 1:
                 code[0] = first
@@ -111,6 +116,11 @@ class C15(Engine):
                 wins.append([rng.pick([0, top - 8, top - 2, 0x7ffe, 0xfffe, 0x1fe]) & 0xffffffff, rng.bytes(8).hex()])
             rnames = CPU_REGS[cpu] if rng.chance(3, 4) else REGNAMES
             regs = [[rng.pick(rnames), rng.pick(VALUES) if rng.chance(3, 4) else rng.below(1 << 16)] for _ in range(rng.range(0, 6))]
+            if rng.chance(1, 3):
+                # a fully seeded register file: every register the simulator lets the user set (index registers at 0x80..0xff
+                # are what makes base+index cross the top of the address space)
+                regs = [[n, rng.pick([0xff, 0x80, 0x90, 0xfe, 0x01, 0xffff, 0x8000, 0x7f, 0x100]) if rng.chance(2, 3) else rng.pick(VALUES)]
+                        for n in CPU_REGS[cpu] if n not in ("pc",)][:20]
             pc = base // (unit if cpu in ("avr8", "lc3", "f100_l", "ebpf") else 1)
             if cpu == "ebpf":
                 pc = base // 8
